@@ -318,10 +318,11 @@ Qed.
 Module CleanTemp.
   Import CM.Clean.Model CM.Gen.Consts.
   Definition temp_key : key := prefix_ocsp ++ [47%N; 51%N; 55%N; 55%N].        (* ocsp/377 *)
-  Definition half_written : node := File 0 (Cls None None None).               (* parses as nothing *)
+  Definition half_written : node := CleanCorr.f0.                               (* parses as nothing *)
   Example clean_deletes_temp_of_inflight_store :
-    sto (delete_old_staples (Env [] [] None true) (fun _ => 0%Z) (St [(temp_key, half_written)] [])) = [].
-  Proof. vm_compute. reflexivity. Qed.
+    exists e : env,                                                             (* an environment without faults *)
+      sto (delete_old_staples e (fun _ => 0%Z) (CleanCorr.st_of [(temp_key, half_written)])) = [].
+  Proof. exists CleanCorr.env0. vm_compute. reflexivity. Qed.
 End CleanTemp.
 
 (** FileSys.Lts side: the LTS has no step that removes another thread's temp name; with that foreign
